@@ -156,8 +156,9 @@ def Ctx.addStreamValue (c : Ctx) (v : ValueAggregate) (name : String) (g : Gener
     pure (c.setStream name pos s')
   | none => do
     let s' ← ({} : Stream).addValue v g
-    -- `HashMap::insert`: an existing entry (whose descriptors do not cover the position) is replaced
-    pure { c with streams := upsert c.streams name [⟨0, usizeMax, s'⟩] }
+    -- the global embodiment goes in front of the descriptors of `new` scopes that are still open (`entry(name).or_default().insert(0, …)`;
+    -- before the repair in /repo the whole vector was replaced and a later `meet_scope_end` panicked)
+    pure { c with streams := upsert c.streams name (⟨0, usizeMax, s'⟩ :: (lookup c.streams name).getD []) }
 
 /-- `meet_scope_start` -/
 def Ctx.streamScopeStart (c : Ctx) (name : String) (spanLeft spanRight : Nat) : Ctx :=
